@@ -325,6 +325,23 @@ def run(ctx):
                 spec_fail.append((name, "stored overlap equals the overlap recomputed from the walker at every propagate entry",
                                   {"walker_type": wt, "trial": tk, "params": params, "first_bad_propagate": bad[0],
                                    "residual": tr.resid[bad[0]], "ops_before": tr.ops[:40]}))
+    # the shortest history of all: the propagator's own initialiser, from supplied walkers, followed directly by a step
+    for wt, tk, nelec in (("unrestricted", "uhf", (2, 1)), ("restricted", "rhf", (2, 2))):
+        try:
+            import jax.numpy as jnp
+            import wf as _wf
+            S = systems.make_system(rng, tk, wt, norb=3, nelec=nelec, nchol=2, n_walkers=3, dt=0.05, seed=rng.randrange(1 << 30))
+            ws = _wf.walkers(random.Random(rng.randrange(1 << 30)), 3, nelec, 3, restricted=(wt == "restricted"))
+            pd0 = S["prop"].init_prop_data(S["trial"], S["wave_data"], S["ham_data"], init_walkers=ws)
+            fresh = np.array(S["trial"].calc_overlap(pd0["walkers"], S["wave_data"]))
+            r0 = float(np.max(np.abs(np.array(pd0["overlaps"]) - fresh) / np.abs(fresh)))
+            nprop += 1
+            worst = max(worst, r0)
+            if not (r0 <= 1e-9):
+                spec_fail.append((f"propagator_{wt}.init_prop_data", "stored overlap equals the overlap recomputed from the walker at every propagate entry",
+                                  {"walker_type": wt, "trial": tk, "history": "init_prop_data(init_walkers=W) followed directly by propagate", "residual": r0}))
+        except Exception as ex:
+            spec_fail.append((f"propagator_{wt}.init_prop_data", "initialiser runs on supplied walkers", {"error": repr(ex)[:300]}))
     # driver
     dlines, ddyn = [], []
     try:
